@@ -1,6 +1,7 @@
 import Driver.Util
 import Faithful.Lib.FirstSuccessSys
 import Std.Data.HashSet
+import Std.Data.HashMap
 open Drv FS FSys
 
 /-!
@@ -28,8 +29,15 @@ def isFinal {V E : Type} (s : State V E) : Bool :=
 
 /-- `step` never reads the ghost field `log` and uses `sentq` / `relq` only through membership, `erase` and `length`;
 states that differ only there have the same futures, so they are explored once -/
+def insSorted (x : Nat) : List Nat → List Nat
+  | [] => [x]
+  | y :: ys => if x ≤ y then x :: y :: ys else y :: insSorted x ys
+def sortTiny (l : List Nat) : List Nat := l.foldl (fun acc x => insSorted x acc) []
+
 def normKey {V E : Type} (s : State V E) : State V E :=
-  { s with log := [], sentq := s.sentq.mergeSort (fun a b => decide (a ≤ b)), relq := s.relq.mergeSort (fun a b => decide (a ≤ b)) }
+  match s.sentq, s.relq with
+  | [], [] => { s with log := [] }
+  | _, _ => { s with log := [], sentq := sortTiny s.sentq, relq := sortTiny s.relq }
 
 def explore {V E : Type} [BEq V] [Hashable V] [BEq E] [Hashable E] (c : Cfg V E) : Expl V E := Id.run do
   let acts := allActs c.n
@@ -63,6 +71,22 @@ def sortStrs (l : List String) : List String := l.mergeSort (fun a b => decide (
 def sortNats (l : List Nat) : List Nat := l.mergeSort (fun a b => decide (a ≤ b))
 def commas (l : List String) : String := ",".intercalate l
 def natList (s : String) : List Nat := if s = "-" then [] else (s.splitOn ",").map String.toNat!
+
+def perms : List Nat → List (List Nat)
+  | [] => [[]]
+  | l => go l.length l
+where
+  go : Nat → List Nat → List (List Nat)
+    | 0, _ => [[]]
+    | _, [] => [[]]
+    | fuel + 1, l => l.flatMap fun x => (go fuel (l.erase x)).map (x :: ·)
+
+/-- results of the order-realising scheduler over every completion order (cross-check of the exploration) -/
+def prioUnion {V E : Type} [BEq V] [BEq E] (c : Cfg V E) : List (Res V E) :=
+  (perms (List.range c.n)).foldl (fun acc order =>
+    match (prioRun c order (5 * c.n + 4) init [] 0).2.1.main with
+    | .done r => if acc.contains r then acc else r :: acc
+    | _ => acc) []
 
 /-! #### fs ops -/
 
@@ -105,13 +129,13 @@ def flags {V E : Type} (n : Nat) (ex : Expl V E) : String :=
   (if ex.badDead then " MODEL-DEADLOCK" else "") ++ (if ex.leftover then " MODEL-BOUND-EXCEEDED" else "") ++
   (if ex.maxBuf > n then " MODEL-BUFFER-OVERFLOW" else "")
 
-def dbg {V E : Type} (ex : Expl V E) : String := s!" states={ex.states}"
-
 def fsAllowed (limit : Int) (outs : List (Out Nat Nat)) : String :=
   if outs.length > 5 then "skip" else
   let c := cfgFs limit outs
   let ex := explore c
-  showAllowed ex.results ++ (if withinSpec outs ex.results then "" else " MODEL-LAYERS-DISAGREE") ++ flags c.n ex ++ dbg ex
+  let a := showAllowed ex.results
+  a ++ (if withinSpec outs ex.results then "" else " MODEL-LAYERS-DISAGREE") ++
+    (if showAllowed (prioUnion c) == a then "" else " MODEL-PRIO-UNION-DIFFERS") ++ flags c.n ex
 
 def fsLine (limit : Int) (outs : List (Out Nat Nat)) (order : List Nat) (allowed : String) : String :=
   let c := cfgFs limit outs
@@ -129,11 +153,13 @@ def parseKind : String → Kind
   | "nb" => .noBucket | "hf" => .hasFalse | "he" => .hasErr false | "hn" => .hasErr true
   | "hit" => .hit | _ => .falsePos
 
+/-- `numbers` are sorted from highest to lowest before the jobs are added -/
 def parseEps (s : String) : List (Nat × Kind) :=
-  if s = "-" then [] else (s.splitOn ",").map fun t =>
+  let l := if s = "-" then [] else (s.splitOn ",").map fun t =>
     match t.splitOn ":" with
     | [a, b] => (a.toNat!, parseKind b)
     | _ => (0, .noBucket)
+  l.mergeSort (fun a b => decide (a.1 ≥ b.1))
 
 def jerrStr : JErr → String
   | .notFound => "nf"
@@ -145,11 +171,20 @@ def showFind : FindRes → String
   | .notFound => "notfound"
   | .internal es => "internal:[" ++ commas (sortStrs (es.map jerrStr)) ++ "]"
 
-def findLine (limit : Int) (eps : List (Nat × Kind)) : String :=
-  if eps.length > 5 then "class=skip allowed=skip" else
+def outStr : Out Nat JErr → String
+  | .ok v => s!"o{v}"
+  | .err e => jerrStr e
+
+/-- search results of all schedules + model self-check flags -/
+def findExplore (limit : Int) (eps : List (Nat × Kind)) : List (Res Nat JErr) × String :=
   let c := cfgOf limit eps
   let ex := explore c
-  let outs := ex.results.map (fun r => showFind (findResult eps r))
+  let canon (rs : List (Res Nat JErr)) : List String :=
+    sortStrs (rs.map fun r => showFind (classify r)).eraseDups
+  (ex.results, (if canon (prioUnion c) == canon ex.results then "" else " MODEL-PRIO-UNION-DIFFERS") ++ flags c.n ex)
+
+def findLine (eps : List (Nat × Kind)) (explored : List (Res Nat JErr) × String) : String :=
+  let outs := explored.1.map (fun r => showFind (findResult eps r))
   let outs := sortStrs outs.eraseDups
   let founds := outs.filter (·.startsWith "found:")
   let cls :=
@@ -157,21 +192,35 @@ def findLine (limit : Int) (eps : List (Nat × Kind)) : String :=
     else match outs with
       | [o] => o
       | _ => "MODEL-AMBIGUOUS"
-  s!"class={cls} allowed=" ++ "|".intercalate outs ++ flags c.n ex
+  s!"class={cls} allowed=" ++ "|".intercalate outs ++ explored.2
 
 def run (lines : Array String) : IO Unit := do
   let out ← IO.getStdout
-  let mut lastKey := ""
-  let mut lastAllowed := ""
+  let mut fsCache : Std.HashMap String String := {}
+  let mut findCache : Std.HashMap String (List (Res Nat JErr) × String) := {}
   for l in lines do
     match words l with
     | ["fs", lim, outs, order] =>
       let key := lim ++ " " ++ outs
-      if key != lastKey then
-        lastAllowed := fsAllowed (intOf lim) (parseOuts outs)
-        lastKey := key
-      out.putStrLn (fsLine (intOf lim) (parseOuts outs) (natList order) lastAllowed)
-    | ["find", lim, eps] => out.putStrLn (findLine (intOf lim) (parseEps eps))
+      let allowed ← match fsCache[key]? with
+        | some a => pure a
+        | none =>
+          let a := fsAllowed (intOf lim) (parseOuts outs)
+          fsCache := fsCache.insert key a
+          pure a
+      out.putStrLn (fsLine (intOf lim) (parseOuts outs) (natList order) allowed)
+    | ["find", lim, epss] =>
+      let eps := parseEps epss
+      if eps.length > 5 then out.putStrLn "class=skip allowed=skip" else
+      let c := cfgOf (intOf lim) eps
+      let key := lim ++ " " ++ commas ((List.range c.n).map fun j => outStr (c.out j))
+      let ex ← match findCache[key]? with
+        | some a => pure a
+        | none =>
+          let a := findExplore (intOf lim) eps
+          findCache := findCache.insert key a
+          pure a
+      out.putStrLn (findLine eps ex)
     | _ => out.putStrLn "bad-op"
 
 end DrvC18
